@@ -242,7 +242,7 @@ def analyse(tu, max_boxes=200000):
         except OutOfBounds as o:
             cells.append((avail, dict(box), None, None, o.idx, False, o.node)); continue
         V = iv(v)
-        byte_ok = (ev.fields['the_byte'] == 0)           # the_byte := the_index before the first get
+        byte_ok = (ev.fields['the_byte'] == 0) if avail > 0 else (ev.fields['the_byte'] == ('old',))   # the_byte := the_index before the first get; an END return leaves it alone
         cells.append((avail, dict(box), V.lo, V.hi, ev.gets, byte_ok, node))
     return cells, nrun
 
